@@ -210,10 +210,10 @@ class Check:
         if hasattr(p, "generate"):
             try:
                 p.generate(self)
-            except build.BuildError as e:
+            except Exception as e:  # BuildError or any translator-specific error class
                 # the translator no longer understands the source: the tie is broken, but the model built from
                 # the last good translation still runs, so the search for a failing input goes on
-                self.gen_error = str(e)
+                self.gen_error = "%s: %s" % (type(e).__name__, e)
         exes = sorted({"mm_" + q.area for q in self.parts()})
         ok, out = build.lake_build(["MptModel.Props." + p.id] + exes)
         self.lake_ok, self.lake_out = ok, out
@@ -227,7 +227,12 @@ class Check:
     def run_pair(self, scripts, part=None):
         q = part or self.prop
         c = run.run_batch([self.drvs[q.driver]], scripts, per_process=getattr(q, "per_process", None))
-        m = run.run_batch([build.model_exe(q.area)], scripts)
+        m = run.run_batch([build.model_exe(q.area)], scripts, timeout=900)
+        # the model is our own code: if IT died or timed out the script says nothing about the repository
+        for i, mr in enumerate(m):
+            if mr is None or mr[1] is not None:
+                c[i] = ([], "skipped")
+                self.model_trouble = getattr(self, "model_trouble", 0) + 1
         return c, m
 
     def classify(self, script, part=None):
@@ -288,7 +293,8 @@ class Check:
                 "distribution": getattr(self, "distribution", {}),
                 "build": self.binfo,
                 "known_findings_hit": [f["key"] for f in self.known_hits],
-                "notes": self.notes,
+                "notes": self.notes + (["model driver died or timed out on %d scripts (counted as skipped)" % self.model_trouble]
+                                       if getattr(self, "model_trouble", 0) else []),
             },
             "assumptions": p.assumptions,
             "wall_s": wall,
@@ -345,6 +351,17 @@ class Check:
 
     # ---------------------------------------------------------------- main flow
     def execute(self):
+        # one check of a property at a time: generated model files and the model executable are shared state
+        import fcntl
+        os.makedirs(build.BUILD, exist_ok=True)
+        lockf = open(os.path.join(build.BUILD, "check-%s.lock" % self.prop.id), "w")
+        fcntl.flock(lockf, fcntl.LOCK_EX)
+        try:
+            return self._execute()
+        finally:
+            lockf.close()
+
+    def _execute(self):
         p = self.prop
         self.findings = load_findings()
         try:
@@ -394,7 +411,13 @@ class Check:
             if proof_broken:
                 self.notes.append("escalated: proof obligation broken, generator budgets x%d" % budget_scale)
             for part in self.parts():
-                streams = list(part.corpus(self)) + list(part.scripts(self.tier, self.seed, budget_scale))
+                try:
+                    streams = list(part.corpus(self)) + list(part.scripts(self.tier, self.seed, budget_scale))
+                except Exception as e:  # a generator that reads the sources may fail on an edited tree
+                    msg = "generator of part %s failed (%s: %s); only the corpus was run" % (part.driver, type(e).__name__, str(e)[:500])
+                    self.notes.append(msg)
+                    proof_broken = proof_broken or ("correspondence incomplete: " + msg)
+                    streams = list(part.corpus(self))
                 self.run_streams(part, streams, seen_nt)
         else:
             self.notes.append("model driver does not build; correspondence not run")
